@@ -145,6 +145,9 @@ def primitives(ctx, cfg, fs, rule):
     # set_scope recomputes remaining as count of present items in the new scope
     b = ctx.look(fs.body('args::inner::State::set_scope'))
     ok = False; desc = None
+    fam = fs.family(b)
+    uses_present = any(fn_ == 'args::ItemState::present' for x in fam for (_, fn_, _) in fn_refs(x)) or \
+        any(c.is_(r'^args::ItemState::present$') for x in fam if x.kind == 'closure' for c in x.calls())
     for i, k, st in b.stmts():
         if st['k'] == 'assign' and 'remaining' in place_fields(st['lhs']):
             rs = provenance(b, st['rv']['op'], i, k, through=None) if st['rv']['k'] == 'use' else []
@@ -152,8 +155,10 @@ def primitives(ctx, cfg, fs, rule):
             for r in rs:
                 if r.kind == 'call' and r.call.is_(r'Iterator>?::count'):
                     chain = r.call.full
-                    refs = [fn for (_, fn, _) in fn_refs(b)]
-                    ok = 'args::ItemState::present' in refs and 'Filter' in chain
+                    # the counted iterator is a filter over item_state[scope]
+                    base = provenance(b, r.call.args[0], r.call.bb, 'term', through=DEFAULT_THROUGH + [r'Iterator>?::(filter|copied|cloned)$', r'slice::<impl \[T\]>::iter$', r'IntoIterator>?::into_iter$'])
+                    on_ledger = bool(base) and all('item_state' in q.path for q in base)
+                    ok = uses_present and 'Filter' in chain and on_ledger
     ctx.ob(rule, 'set_scope:remaining-recount', ok, 'set_scope recomputes remaining as the number of present() items of the new scope: %s' % ok, where=b.where(), cfg=cfg)
     assigned = any(st['k'] == 'assign' and place_fields(st['lhs']) == ['scope'] and all(r.kind == 'param' and r.what == 'scope' for r in provenance(b, st['rv']['op'], i, k)) for i, k, st in b.stmts() if st['rv']['k'] == 'use')
     ctx.ob(rule, 'set_scope:assigns-parameter', assigned, 'set_scope stores its parameter as the new scope: %s' % assigned, where=b.where(), cfg=cfg)
